@@ -200,7 +200,7 @@ class FilReader(Filterbank):
 
         self._file.seek(start * self.samp_stride)
         nreads, lastread = divmod(nsamps, (gulp - skipback))
-        if lastread < skipback:
+        while lastread < skipback:
             nreads -= 1
             lastread = nsamps - (nreads * (gulp - skipback))
         blocks = [
@@ -336,7 +336,7 @@ class PFITSReader(Filterbank):
             msg = f"readsamps ({gulp}) must be > skipback ({skipback})"
             raise ValueError(msg)
         nreads, lastread = divmod(nsamps, (gulp - skipback))
-        if lastread < skipback:
+        while lastread < skipback:
             nreads -= 1
             lastread = nsamps - (nreads * (gulp - skipback))
         blocks = [(ii, gulp, -skipback) for ii in range(nreads)]
